@@ -420,7 +420,7 @@ Proof.
   destruct Hok as [Hok|[Hok|[Hok|[Hok|[Hok|[Hok|Hok]]]]]].
   - (* a is an exclusive-phase access *)
     unfold respects in Hra. destruct (ac_guard a); try discriminate.
-    apply (Hra j ej); auto. congruence.
+    apply (Hra j ej); auto; congruence.
   - unfold respects in Hrb. destruct (ac_guard b); try discriminate.
     destruct (Hrb i ei) as [H|H]; auto.
   - (* two reads *)
@@ -491,27 +491,26 @@ Qed.
 Definition racy_ex : execution :=
   [ mkEvent 1 Write 7 NonAtomic None; mkEvent 2 Write 7 NonAtomic None ].
 
+Lemma racy_hb1 : forall i j, hb1 racy_ex i j -> False.
+Proof.
+  intros i j H. pose proof (hb1_lt _ _ _ H) as Hlt.
+  assert (Hb : forall k e, ev racy_ex k = Some e -> k < 2).
+  { intros k e Hk. apply ev_lt in Hk. cbn in Hk. exact Hk. }
+  destruct H as [(_ & ei & ej & Hi & Hj & Ht)|(_ & ei & ej & Hi & Hj & Hs)];
+    pose proof (Hb i ei Hi) as Bi; pose proof (Hb j ej Hj) as Bj;
+    assert (i = 0) by lia; assert (j = 1) by lia; subst i j;
+    unfold ev in Hi, Hj; cbn in Hi, Hj; inversion Hi; inversion Hj; subst ei ej.
+  - cbn in Ht. discriminate.
+  - destruct Hs as [(Hk & _)|[(_ & Hk & _)|[(c & Hk & _)|(c & Hk & _)]]]; cbn in Hk; discriminate.
+Qed.
+
 Lemma racy_ex_races : ~ race_free racy_ex.
 Proof.
   intros RF. apply (RF 0 1).
   exists (mkEvent 1 Write 7 NonAtomic None), (mkEvent 2 Write 7 NonAtomic None).
+  assert (N : forall i j, ~ hb racy_ex i j).
+  { intros i j H. induction H as [i j H|i k j _ IH1 _ _]; [exact (racy_hb1 i j H)|exact IH1]. }
   repeat split; try reflexivity; try discriminate; auto.
-  - cbn. discriminate.
-  - intros H.
-    assert (G : forall i j, hb racy_ex i j -> i = 0 -> False).
-    { clear. intros i j H. induction H as [i j H|i k j H1 IH1 H2 IH2]; intros ->.
-      - destruct H as [(Hlt & ei & ej & Hi & Hj & Ht)|(Hlt & ei & ej & Hi & Hj & Hs)].
-        + destruct j as [|[|j]]; try lia; cbn in Hi, Hj; try discriminate.
-          inversion Hi; inversion Hj; subst. cbn in Ht. discriminate.
-        + cbn in Hi. inversion Hi; subst ei.
-          destruct Hs as [(Hk & _)|[(Hk & Hk' & _)|[(c & Hk & _)|(c & Hk & Hc & _)]]]; try (cbn in Hk; discriminate).
-          * destruct j as [|[|j]]; try lia; cbn in Hj; try discriminate.
-            inversion Hj; subst ej. cbn in Hk'. discriminate.
-          * destruct j as [|[|j]]; try lia; cbn in Hj; try discriminate.
-            inversion Hj; subst ej. cbn in Hk. discriminate.
-      - apply IH1. reflexivity. }
-    exact (G 0 1 H eq_refl).
-  - intros H. apply hb_lt in H. lia.
 Qed.
 
 (** A two-class table (one location class guarded by one lock class) and a
@@ -541,10 +540,10 @@ Proof.
                        else mkClass "toy.read" 0 Read NonAtomic (GLock [0]) RPlain)
              (fun _ => 0)).
     intros i e H Ha.
-    do 6 (destruct i as [|i]; [cbn in H; inversion H; subst e; try discriminate Ha|]).
+    destruct i as [|[|[|[|[|[|i]]]]]]; unfold ev in H; cbn in H; try (destruct i; discriminate H);
+      inversion H; subst e; try discriminate Ha.
     + cbn. split; [auto|]. split; [repeat split|]. intros M [<-|[]]. reflexivity.
     + cbn. split; [auto|]. split; [repeat split|]. intros M [<-|[]]. reflexivity.
-    + destruct i; discriminate.
 Qed.
 
 Corollary toy_race_free : race_free toy_ex.
